@@ -1778,10 +1778,10 @@ func runJSXSub(t *testing.T, sub string, lit bool, quick, thorough int) {
 
 func runJSXRT(t *testing.T) {
 	H.Rule("jsxrt", "rapid (uniform draws): JSX programs of 1-2 root expressions, element trees to depth 4 over string/dashed/namespaced/component/member/non-ASCII tags and fragments; attributes: string (either quote, entities, </script>, braces, U+2028, non-ASCII), {expr}, shorthand, spread (plain, with key inside, with a logging getter, probed), element-valued, dashed/namespaced/reserved-word/non-ASCII names, key before/after spread; children: text (multi-line, entities of every kind incl. near misses), {expr} (probes p(id,v), conditionals, arrays, map callbacks, arrow calls, comma, objects, templates), nested elements, {} and comment-only braces; 40% non-core cases add tabs/exotic white space/U+2028 in text, newlines in string attributes, out-of-range and white-space references, spread children, __proto__/children attributes, comments inside tags and braces. Modes classic (3 factories) / automatic / automatic+development × import source × format × platform × charset × minify-whitespace × line-limit. Oracles: (A) esbuild(preserve(P)) ≡ esbuild(P) under V8 with logging factories, preserve step with its own drawn charset/minify/line-limit; (B, core cases) the reference desugaring written from the React/JSX conventions, incl. jsx vs jsxs, key as third argument, createElement fallback for key after spread, children in props, development line/column; charset=ascii ⇒ ASCII-only output. Non-trivial = at least two factory calls/probes observed, or one factory call that received a literal containing a character reference or multi-line text")
-	runJSXSub(t, "jsxrt", false, 8000, 600000)
+	runJSXSub(t, "jsxrt", false, 8000, 120000)
 }
 
 func runJSXLit(t *testing.T) {
 	H.Rule("jsxlit", "rapid (uniform draws): 1-3 elements whose string attributes (either quote) and text children consist of hostile pieces: named (all 253)/decimal/hex/zero-padded/upper-case references, surrogate halves, unknown names, near misses (&amp ;, &#x;, &#65a;, &#X41; …), missing semicolons, astral and non-ASCII characters, U+2028/9, quotes, backslashes, </script>, <!--, braces in attributes, multi-line text with indentation; the value received by the factory is compared with an independent decoder (HTML 4.01 table + JSX white-space rule); charset=ascii ⇒ ASCII-only output; round trip through preserve as in jsxrt. Signed references (&#+65;, 2% of the cases) are a listed finding. Non-trivial = at least two factory calls, or one that received a literal containing a character reference or multi-line text")
-	runJSXSub(t, "jsxlit", true, 6000, 400000)
+	runJSXSub(t, "jsxlit", true, 6000, 80000)
 }
